@@ -144,7 +144,35 @@ type propInfo struct {
 var props = map[string]*propInfo{}
 
 func register(id, level, explanation, notDecided string, run func(c *Check)) {
+	if more, ok := addedClauses[id]; ok {
+		explanation += " Added after the independently seeded changes (DESIGN.md section 11): " + more
+	}
+	if nd, ok := notDecidedOverride[id]; ok {
+		notDecided = nd
+	}
 	props[id] = &propInfo{Level: level, Explanation: explanation, NotDecided: notDecided, Run: run}
+}
+
+// addedClauses: what the rules of rules_extra.go (and the extensions of existing rules made for seeded changes) decide.
+var addedClauses = map[string]string{
+	"C01": "(g1) the only host ever left out of the freeze is the old master, and only for an automatic request that moves away from exactly that host.",
+	"C02": "(RELEASE) a fenced master is taken offline BEFORE its semi-sync is disabled, so a commit blocked on an acknowledgement is cut, never acknowledged; (FENCE-OLD) nothing is promoted while an alive old master could not be made read-only unless the request's transition is 'failover' (an unset transition counts as a planned switch), and that rejection is recorded.",
+	"C04": "(ADJUST) the master adjustment reports success only if BOTH the wait count equals the requested one (it did, or setting it succeeded) and the plugin is on (it was, or enabling succeeded); for a zero count, only if it is off.",
+	"C06": "(WRITERS) writers are judged per call chain, so the filing helper using an overwriting set is reported although start/fail bookkeeping legitimately reach the same write site.",
+	"C07": "(REFREEZE) = C01.g1's filter gates: on a resumed failover the recorded master is the new one and is frozen like everybody else; (MARK) = C11.ORDER: marking publishes the list without exactly the marked host before the mark is created, so a crash between the two writes leaves a list the successor can approve with.",
+	"C08": "(ERRID) error identity: the errors tested with errors.Is(DeadlineExceeded) / errors.As(MySQLError) in the lost handler reach the test with their chain intact through every in-module function on the return path (returned as is or wrapped with %w).",
+	"C09": "(LIGHT) approval, start and the switchover procedure are reached only outside light mode or for a transition other than 'failover' — whatever the cause of the request.",
+	"C10": "(SYNC) a registered host that is no longer listed in the coordination service is removed from the registry on every path that continues the refresh, the local host included; (UNFENCE, must) when read-only is not needed, writing is allowed and the master is read-only (whatever its super flag) every path makes it writable; an offline, unmarked master is brought online on every path.",
+	"C13": "(SCAN) the maximal-element search indexes the very slice whose length bounds its index, from the first unexamined element; (CURSOR) proof obligations on the interval subtraction, decided by Fourier–Motzkin entailment from the branch facts that dominate each site: the subtrahend cursor is advanced only past an interval with b[bi].Stop <= iv.Stop, every emitted piece is non-empty and ends within the current minuend interval, the position variable is only ever the minuend's start or a subtrahend's end, the cursor is monotone, the inputs are not written.",
+	"C14": "(SCAN) the highest-priority search examines every element; (BOUNDSRC) frozen table of which configured bound each caller hands to the chooser (promotion: the switch helper's priority-choice max lag, filled from priority_choice_max_lag / async_allowed_lag; optimisation: the high replication mark).",
+	"C15": "(ORDER) order-polarity typestate of makePath: ancestors are probed deepest-first and created top-down (tracking slices.Reverse on the very slice each loop walks); (IDENTITY) every errors.Is/As test against a coordination sentinel (dcs.Err*, zk.Err*) anywhere in the module receives an error whose chain is intact through all in-module functions on the return path; (SESSION) = C03.SESSION.",
+	"C16": "(FLAG) every state handed out by the state collector carries the cascade flag, on every return path, as the registry's answer for this host.",
+	"C17": "(COUNTED) once the offline statement succeeded the zone's pending count is incremented on every path out of the function; (STAMP) advancing the interval stamp overwrites the key with the current time and the wrapper returns that write's result.",
+	"C20": "(NILESCAPE) a registry handle looked up with a name that is not registry-derived does not leave the function that looked it up (interface conversion, slice/field store, argument, return) without a presence test — the typed-nil hazard NILKEY cannot see.",
+}
+
+var notDecidedOverride = map[string]string{
+	"C13": "termination of the interval subtraction, that the emitted pieces are exactly the difference (the obligations above are necessary conditions proved from branch facts, not a full functional proof), and the go-mysql library's Contain/Equal/Update for all GTID sets",
 }
 
 var globalAssumptions = []string{
